@@ -177,10 +177,13 @@ def c03 (cfg : Cfg) (op : Op) (o : OpObs) : Bool :=
     | .err .illegal => !ign && Chan.forbidden cfg.blacklist b && o.writes.isEmpty
     | _ => false
   | .send b _ _ ign =>
+    -- a rejected `send` may already have delivered earlier slices: what reached the transport
+    -- is a prefix of the request and contains no forbidden byte
     let fine := ign || !Chan.forbidden cfg.blacklist b
     match o.res with
     | .unit => fine && accepted o.writes == b
-    | .err .illegal => !fine && o.writes.isEmpty
+    | .err .illegal => !fine && (accepted o.writes).isPrefixOf b
+                         && !Chan.forbidden cfg.blacklist (accepted o.writes)
     | .err _ => fine && (accepted o.writes).isPrefixOf b
     | _ => false
   | .sendline b _ _ =>
@@ -188,7 +191,8 @@ def c03 (cfg : Cfg) (op : Op) (o : OpObs) : Bool :=
     let fine := !Chan.forbidden cfg.blacklist b
     match o.res with
     | .unit => fine && accepted o.writes == b
-    | .err .illegal => !fine && o.writes.isEmpty
+    | .err .illegal => !fine && (accepted o.writes).isPrefixOf b
+                         && !Chan.forbidden cfg.blacklist (accepted o.writes)
     | .err _ => fine && (accepted o.writes).isPrefixOf b
     | _ => false
   | .sendcontrol n =>
@@ -210,6 +214,43 @@ def c03Sizes (cfg : Cfg) (op : Op) (o : OpObs) : Bool :=
         | _ => o.writes.all fun w => w.1.length ≤ cfg.slice)
   | _ => true
 
+/-! ### C06 -/
+
+/-- the timeout parameter of a timed operation (`none`: the operation takes no timeout) -/
+def timeoutOf : Op → Option (Option Nat)
+  | .read _ t | .readIter _ t _ | .readline _ t | .expect _ t | .rup _ t | .rut t => some t
+  | .send _ rb t _ | .sendline _ rb t => if rb then some t else none
+  | _ => none
+
+/-- every transport request carries exactly the time that is left of the overall timeout -/
+def readsTimed (T : Option Nat) (t0 : Nat) (rs : List ReadRec) : Bool :=
+  rs.all fun r =>
+    match T with
+    | none => r.timeout.isNone
+    | some T => r.t0 - t0 ≤ T && r.timeout == some (T - (r.t0 - t0)) && t0 ≤ r.t0
+
+def c06 (cfg : Cfg) (op : Op) (o : OpObs) : Bool :=
+  match timeoutOf op with
+  | none => true
+  | some T =>
+    readsTimed T o.t0 o.reads
+    && (match o.res, T with
+        | .err .timeout, none => false                       -- no timeout given: never TimeoutError
+        | .err .timeout, some T => cfg.slowDelay.isSome || o.t1 == o.t0 + T   -- exactly at the deadline
+        | _, none => true
+        | _, some T => cfg.slowDelay.isSome || o.t1 ≤ o.t0 + T)
+    -- a result other than a time-out is returned at the moment of the last delivery
+    && (match o.res with
+        | .err .timeout => true
+        | _ => cfg.slowDelay.isSome || (match o.reads.getLast? with
+                  | none => o.t1 == o.t0
+                  | some r => r.t1 == o.t1))
+    -- read_until_timeout never raises TimeoutError and ends exactly at the deadline
+    && (match op, o.res with
+        | .rut (some T), .text _ => o.t1 == o.t0 + T
+        | .rut _, .err .timeout => false
+        | _, _ => true)
+
 /-- whole case: every byte handed out by the transport plus what is left is the stream -/
 def conservation (c : Case) (obs : List OpObs × Bytes) : Bool :=
   ((obs.1.map fun o => (delivered o).flatten).flatten ++ obs.2) == (c.script.map (·.data)).flatten
@@ -226,5 +267,6 @@ def C02 (c : Case) (obs : List OpObs × Bytes) : Bool := foldOps c02 (initCfg c)
 def C03 (c : Case) (obs : List OpObs × Bytes) : Bool :=
   foldOps (fun cfg op o => c03 cfg op o && c03Sizes cfg op o) (initCfg c) c.ops obs.1 && conservation c obs
 def C04 (c : Case) (obs : List OpObs × Bytes) : Bool := foldOps (fun _ => c04) (initCfg c) c.ops obs.1
+def C06 (c : Case) (obs : List OpObs × Bytes) : Bool := foldOps c06 (initCfg c) c.ops obs.1
 
 end Spec
